@@ -84,5 +84,6 @@ Definition custom_dist (which : nat) (a b : str) : Q :=
   | 2%nat => Z.of_nat (slev_x a b) # 2
   | 3%nat => inject_Z (Z.abs (Z.of_nat (length a) - Z.of_nat (length b)))
   | 4%nat => inject_Z (Z.of_nat (wlev_dp N.eq_dec 2 2 3 a b))
+  | 6%nat => inject_Z (100001 * Z.of_nat (slev_x a b))      (* values of order 10^5: a RELATIVE tolerance on a radius would show *)
   | _ => if str_eqb a b then 0%Q else inject_Z (Z.of_N (N.modulo (sumcodes a + sumcodes b) 7))
   end.
